@@ -491,6 +491,33 @@ def zeros(shape, value=0, what="np.zeros"):
     return AArr(axes, as_term(value) if not isinstance(value, AArr) else None, Buf(what))
 
 
+def resize(a, shape):
+    """np.resize(a, shape): the FLATTENED data of a repeated cyclically until the new shape is filled.  This keeps every entry under its
+    labels exactly when the array's own axes are the trailing axes of the new shape (the repetition then runs over the leading, new
+    axes); in every other arrangement entries end up under other labels"""
+    tgt = zeros(shape, 0, "np.resize")
+    if not isinstance(a, AArr):
+        tgt.term = as_term(a)
+        return tgt
+    a.check_fresh()
+    own = [x for x in a.axes]
+    k = len(tgt.axes) - len(own)
+    if k >= 0 and [repr(x) for x in tgt.axes[k:]] == [repr(x) for x in own] and all(is_labelled(x) or x == ONE for x in tgt.axes):
+        return AArr(tgt.axes, a.term, Buf("np.resize"), dtype=a.dtype)
+    if axis_lens(tgt.axes) == axis_lens(own):
+        raise ModelAbort("np.resize to the same shape with other axes")
+    raise ModelViolation(f"np.resize repeats the flattened data: an array over {show_axes(own)} resized to {show_axes(tgt.axes)} puts entries under other labels "
+                         f"(it is a broadcast only when the array's axes are the trailing axes of the new shape)")
+
+
+def axis_lens(axes):
+    return [axis_len(x) for x in axes]
+
+
+def show_axes(axes):
+    return "(" + ", ".join((str(x[0])[:1] + "…" if is_labelled(x) else "1" if x == ONE else f"#{x[1]}") for x in axes) + ")"
+
+
 def full(shape, fill, what="np.full"):
     a = zeros(shape, 0, what)
     if isinstance(fill, AArr):
